@@ -124,7 +124,8 @@ class Cycle:
             for d in sorted(os.listdir(self.psdir)):
                 p = os.path.join(self.psdir, d, "fork0", "_outs")
                 if os.path.isfile(p) and not d.startswith("_") and d not in ("journal", "tmp", "outs"):
-                    return json.load(open(p))
+                    # (paths of file outputs: the pipestance directory differs from cycle to cycle)
+                    return json.loads(open(p).read().replace(self.psdir, "$PS"))
         except Exception as e:
             return {"#error": str(e)}
         return None
